@@ -43,6 +43,9 @@ class Check(PropCheck):
                 ops += ['size', 'resolve %d' % rng.randint(0, 10 ** 6), 'dump']
             elif r2 < 0.62:
                 ops += ['pick nonroot %d' % rng.randint(0, 10 ** 6), 'set_pedge $0 ' + vf.enc_len(gen.exact_len(rng))]
+            if rng.random() < 0.12:
+                # the whole tree on a tiny / huge scale (a drawing in another unit): nothing may depend on an absolute epsilon
+                ops += ['rescale ' + vf.enc_len(rng.choice([2.0 ** -70, 2.0 ** -55, 2.0 ** -200, 2.0 ** 80]))]
             f = rng.choice([2.0, 0.5, 10.0, 0.001, -1.0, 3.7])
             ops += ['dump', 'layout', 'layout ' + vf.enc_len(f)]
             if rng.random() < 0.1:
